@@ -87,6 +87,16 @@ def generate(seed):
         if rules and r.random() < 0.1:
             refs.append(r.randrange(len(rules)))  # a Rule object shared with another schema
         schemas.append(("schema", tuple(refs)))
+    # ordinary usage: one list object handed to two Schema constructors, or a
+    # schema built from another schema's `.rules`
+    rlists = []
+    if r.random() < 0.3:
+        i = r.randrange(n_s)
+        rlists.append(tuple(schemas[i][1]))
+        schemas[i] = ("schema_l", 0)
+        schemas.append(("schema_l", 0))
+    if r.random() < 0.2:
+        schemas.append(("schema_of", r.randrange(len(schemas))))
 
     n_callers = r.randint(1, 3)
     programs = [[] for _ in range(n_callers)]
@@ -109,7 +119,7 @@ def generate(seed):
         "property": PID,
         "seed": seed,
         "knobs": knobs,
-        "world": {"docs": docs, "rules": rules, "schemas": schemas, "roots": roots},
+        "world": {"docs": docs, "rules": rules, "rlists": rlists, "schemas": schemas, "roots": roots},
         "programs": programs,
         "decisions": order_to_decisions(order),
     }
@@ -205,7 +215,15 @@ class Model:
             b, dm, mm = split_path(path)
             base.append(ModelRule((b,), dm, mm, cond, cast, doc, i, i))
         self.schemas = []
-        for _, refs in term["schemas"]:
+        for t in term["schemas"]:
+            if t[0] == "schema_l":
+                refs = term["rlists"][t[1]]
+            elif t[0] == "schema_of":
+                # same rules as the schema it was built from (at build time)
+                self.schemas.append(list(self.schemas[t[1]]))
+                continue
+            else:
+                refs = t[1]
             rules = [base[i] for i in refs]
             self.schemas.append(self._sorted(rules))
 
@@ -357,19 +375,20 @@ def rules_proj(rules):
     compared separately)."""
     out = []
     for r in rules:
-        p = r.path
+        p = getattr(r, "path", None)
+        g = lambda name: snap(getattr(p, name, "<missing>"))
         out.append(
             (
                 "obj",
                 "valida.rules.Rule",
                 (
-                    ("cast", snap(r.cast)),
-                    ("condition", snap(r.condition)),
-                    ("doc", snap(r.doc)),
-                    ("path.DATUM_TYPE", snap(p.DATUM_TYPE)),
-                    ("path.MULTI_TYPE", snap(p.MULTI_TYPE)),
-                    ("path.parts", snap(p.parts)),
-                    ("path.source_data", snap(p.source_data)),
+                    ("cast", snap(getattr(r, "cast", "<missing>"))),
+                    ("condition", snap(getattr(r, "condition", "<missing>"))),
+                    ("doc", snap(getattr(r, "doc", "<missing>"))),
+                    ("path.DATUM_TYPE", g("DATUM_TYPE")),
+                    ("path.MULTI_TYPE", g("MULTI_TYPE")),
+                    ("path.parts", g("parts")),
+                    ("path.source_data", g("source_data")),
                 ),
             )
         )
